@@ -321,7 +321,9 @@ pub fn gen_client(rng: &mut Rng, id: usize) -> Vec<String> {
     // frame bytes arriving together with the head
     let ntail = rng.below(3);
     for _ in 0..ntail {
-        suffix.extend(enc_frame(true, 0, 2, None, &rng.bytes(rng.clone().below(6)), LenForm::Minimal));
+        // now and then the frames that arrive with the head are longer than the head itself
+        let n = if rng.chance(1, 3) { rng.range(100, 400) } else { rng.below(6) };
+        suffix.extend(enc_frame(true, 0, 2, None, &rng.bytes(n), LenForm::Minimal));
     }
     let mutate = if rng.chance(1, 6) { format!(" mut={}", rng.below(28)) } else { String::new() };
     lines.push(format!(
